@@ -421,6 +421,9 @@ class Engine:
         # `x - y` right after a successful `x > y` / `x >= y` test (guarded in-place subtraction of a table count)
         if c[0] == "field" and c[2] in ("1", 1) and c[1][0] == "bin" and c[1][1] == "SubWithOverflow":
             x, y = c[1][2], c[1][3]
+            # `x - n.min(x)` cannot go below zero
+            if y[0] == "call" and y[2] in ("core::cmp::Ord::min", "core::cmp::min") and len(y[3]) == 2 and x in y[3]:
+                return False
             for f in st.flags:
                 if f[0] == "cmp" and len(f) >= 5:
                     op, a, b_, truth = f[1], f[2], f[3], f[4]
@@ -497,7 +500,9 @@ class Engine:
     def domain(self, ev, st):
         k = ev.kind
         if k == "get":
-            return st.replace(fresh=st.fresh | {(ev.b, ev.box, ev.field)})
+            # two reads of one counter with no write in between yield the same value
+            same = frozenset(("sameread", min(s0, ev.b), max(s0, ev.b), ev.box, ev.field) for (s0, b0, f0) in st.fresh if b0 == ev.box and f0 == ev.field and s0 != ev.b)
+            return st.replace(fresh=st.fresh | {(ev.b, ev.box, ev.field)}, flags=st.flags | same)
         if k == "set":
             box, field = ev.box, ev.field
             # all reads of this counter (on any box that may alias) are now stale
@@ -645,6 +650,16 @@ class Engine:
         # bool-typed discriminant
         # `weak_count` is `weak - 1`: an integer switch on it is a switch on the counter
         shifted = d[0] == "bin" and d[1] in ("Sub", "SubUnchecked") and is_const(d[3]) and counter_read(d[2]) is not None
+        # an integer switch on what an iterator consumer computed (`match it.max() { Some(0) => .. }`, `match it.sum() { 0 => .. }`)
+        agg = d[1][1] if (d[0] == "field" and d[1][0] == "variant") else d
+        if agg[0] == "call" and agg[2] in ("core::iter::Iterator::max", "core::iter::Iterator::min", "core::iter::Iterator::sum", "core::iter::Iterator::fold", "core::iter::Iterator::count"):
+            if v == "otherwise":
+                for lv in listed:
+                    st = self.assume(st, ("bin", "Eq", d, const(lv)), False, b)
+                    if st is None:
+                        return None
+                return st
+            return self.assume(st, ("bin", "Eq", d, const(v)), True, b)
         if listed == ["0"] and counter_read(d) is None and not shifted:
             return self.assume(st, d, v != "0", b)
         # integer switch on a counter value: `match strong { 0 | MAX => .., _ => .. }`
@@ -707,7 +722,20 @@ class Engine:
             if is_const(y):
                 # a test of the very expression that was last stored into a counter is a test of the counter
                 for f in st.flags:
-                    if f[0] == "cur" and f[3] == x:
+                    yk = y
+                    hit = f[0] == "cur" and f[3] == x
+                    gx_, gf_ = counter_read(x), (counter_read(f[3][2]) if f[0] == "cur" and f[3][0] == "bin" else None)
+                    same_read = gx_ is not None and gf_ is not None and gx_[1:] == gf_[1:] and (gx_[0] == gf_[0] or ("sameread", min(gx_[0], gf_[0]), max(gx_[0], gf_[0]), gx_[1], gx_[2]) in st.flags)
+                    if f[0] == "cur" and not hit and f[3][0] == "bin" and same_read and is_const(f[3][3]):
+                        # the counter now holds `x - k` / `x + k` for the read x being tested (`let prior = c.replace(c.get() - 1);
+                        # prior == 1`): a test of the old value is a test of the new one, shifted
+                        k = int(f[3][3][1])
+                        if f[3][1] in ("Sub", "SubUnchecked") and int(y[1]) >= k:
+                            hit, yk = True, const(int(y[1]) - k)
+                        elif f[3][1] in ("Add", "AddUnchecked"):
+                            hit, yk = True, const(int(y[1]) + k)
+                    if hit:
+                        y = yk
                         box, field = f[1], f[2]
                         if field == "strong":
                             new = st.strong(box) & classes_for(op, y[1], truth)
@@ -1100,6 +1128,12 @@ class Engine:
                  "core::ptr::const_ptr::<impl *const T>::read", "core::ptr::mut_ptr::<impl *mut T>::read", "core::ptr::mut_ptr::<impl *mut T>::replace",
                  "core::mem::ManuallyDrop::<T>::take", "core::mem::ManuallyDrop::<T>::into_inner"):
             bp = box_part(args[0]) if args else None
+            if bp is None and d == "core::mem::swap" and len(args) == 2 and box_part(args[1]) is not None and box_part(args[1])[1] in ("value", "links"):
+                # `mem::swap(&mut local, &mut (*b).links)`: the field's contents now live in the local (what the local held -- an
+                # uninit placeholder in the idiom -- is in the field)
+                bp2 = box_part(args[1])
+                A("moveout", box=bp2[0], field=bp2[1], how="swap", res=mk_deref(args[0]), put=mk_deref(args[0]))
+                return evs, False
             if bp is not None:
                 if bp[1] in ("value", "links"):
                     A("moveout", box=bp[0], field=bp[1], how=d.rsplit("::", 1)[1], res=res, put=args[1] if d.endswith("::replace") and len(args) > 1 else None)
